@@ -62,7 +62,7 @@ def instances(tier, seed):
     models = fam.ode_core()
     n = 0
     meths = [('MS', 'rk'), ('SS', 'rk'), ('DC', None), ('MS', 'expl_euler'), ('SS', 'expl_euler'), ('DC', None)]
-    reps = 1 if tier == 'quick' else 3
+    reps = 1 if tier == 'quick' else 6
     for rep in range(reps):
         for mi, (method, intg) in enumerate(meths):
             for oi in range(5):
